@@ -390,3 +390,477 @@ Proof.
        | H : context [if ?b then _ else _] |- _ => destruct b eqn:?
        end; cbn [andb negb orb] in *; try lia.
 Qed.
+
+Lemma R_inv1 cf progs s : R cf progs s -> Inv1 cf (gl s) (thr s).
+Proof. intros H. eapply reachable_inv; [apply Inv1_step|apply Inv1_init|exact H]. Qed.
+
+(* ---------- C01: whoever holds the lock exclusively is alone ---------- *)
+Lemma own1_le g u : (own1 g u <= 1)%nat.
+Proof. unfold own1. destruct (owner g); [|lia]. destruct (Nat.eqb n u); cbn; lia. Qed.
+Lemma own1_pos g u : (1 <= own1 g u)%nat -> owner g = Some u.
+Proof.
+  unfold own1. destruct (owner g) as [a|]; [|lia]. destruct (Nat.eqb_spec a u); cbn; [congruence|lia].
+Qed.
+Lemma lx_le cf g ls u : Inv1 cf g ls -> (lx cf (locof ls u) <= 1)%nat.
+Proof. intros HI. rewrite (I_x _ _ _ HI). apply own1_le. Qed.
+
+Lemma excl_locks cf g ls t u : Inv1 cf g ls -> t <> u -> (1 <= lx cf (locof ls t))%nat ->
+  lx cf (locof ls u) = 0%nat /\ lsh cf (locof ls u) = 0%nat.
+Proof.
+  intros HI Hne Ht. rewrite (I_x _ _ _ HI) in Ht. apply own1_pos in Ht.
+  rewrite (I_x _ _ _ HI), (I_s _ _ _ HI). unfold own1, shc. rewrite Ht.
+  rewrite (I_m _ _ _ HI) by congruence. destruct (Nat.eqb_spec t u); [congruence|]. auto.
+Qed.
+
+(* ---------- windows ---------- *)
+Definition rdopen (p : pc) : nat :=
+  match p with
+  | Run _ (MRead :: _) (S _) _ _ => 1%nat
+  | Run _ (MIncr :: _) 1 _ _ => 1%nat
+  | _ => 0%nat
+  end.
+Definition wropen (p : pc) : bool :=
+  match p with
+  | Run _ (MWrite Obj _ :: _) (S _) _ _ => true
+  | Run _ (MIncr :: _) (S (S (S _))) _ _ => true
+  | _ => false
+  end.
+Definition ro_mi (i : mi) : bool :=
+  match i with MCall _ _ | MRead | MWrite (Priv _) _ => true | _ => false end.
+Definition nowrite (code : list mi) : bool := forallb ro_mi code.
+Definition safe (cf : config) (g : glob) : Prop := locking cf = true /\ misuse g = 0%nat.
+Definition covered (cf : config) (l : loc) : Prop :=
+  forall fr code ph r ok, at_ l = Run fr code ph r ok ->
+    lx cf l = 1%nat \/ ((1 <= lsh cf l)%nat /\ nowrite code = true).
+
+Record Inv2 (cf : config) (g : glob) (ls : list loc) : Prop := {
+  I_r : readers g = list_sum (map (fun l => rdopen (at_ l)) ls);
+  I_cov : safe cf g -> forall u, covered cf (locof ls u);
+  I_d : safe cf g -> dirty g = true -> exists u, wropen (at_ (locof ls u)) = true;
+  I_f : safe cf g -> faults g = nderef g;
+  I_reg : safe cf g -> forall u fr rest ph r ok,
+      at_ (locof ls u) = Run fr (MIncr :: rest) ph r ok -> (2 <= ph)%nat -> r = val g;
+  I_val : safe cf g -> owrites g = 0%nat -> val g = init_val cf + Z.of_nat (incrs g)
+}.
+
+Lemma sum_zero {A} (f : A -> nat) (l : list A) :
+  (forall u x, nth_error l u = Some x -> f x = 0%nat) -> list_sum (map f l) = 0%nat.
+Proof.
+  induction l as [|a r IH]; intros H; [reflexivity|].
+  change (list_sum (map f (a :: r))) with (f a + list_sum (map f r))%nat.
+  rewrite (H 0%nat a eq_refl). rewrite IH; [reflexivity|]. intros u x Hx. apply (H (S u) x Hx).
+Qed.
+
+Lemma wropen_run p : wropen p = true -> exists fr i rest ph r ok, p = Run fr (i :: rest) ph r ok /\ ro_mi i = false.
+Proof.
+  destruct p; cbn; try discriminate. destruct code as [|i rest]; [discriminate|].
+  destruct i; try discriminate.
+  - destruct tg; [|discriminate]. intros _. repeat eexists.
+  - intros _. repeat eexists.
+Qed.
+Lemma rdopen_run p : rdopen p = 1%nat -> exists fr code ph r ok, p = Run fr code ph r ok.
+Proof. destruct p; cbn; try discriminate. intros _. repeat eexists. Qed.
+Lemma rdopen_le p : (rdopen p <= 1)%nat.
+Proof. destruct p; cbn; try lia. destruct code as [|[]]; try lia; destruct ph as [|[|]]; lia. Qed.
+
+(* a thread that writes is alone: nobody else is inside a window *)
+Lemma writer_alone cf g ls t : Inv1 cf g ls -> Inv2 cf g ls -> safe cf g ->
+  lx cf (locof ls t) = 1%nat -> forall u, u <> t -> rdopen (at_ (locof ls u)) = 0%nat /\ wropen (at_ (locof ls u)) = false.
+Proof.
+  intros H1 H2 Hs Ht u Hne.
+  destruct (excl_locks cf g ls t u H1 (not_eq_sym Hne) ltac:(lia)) as [Ex Es].
+  pose proof (I_cov _ _ _ H2 Hs u) as Hc.
+  split.
+  - pose proof (rdopen_le (at_ (locof ls u))). destruct (rdopen (at_ (locof ls u))) eqn:E; [reflexivity|].
+    assert (rdopen (at_ (locof ls u)) = 1%nat) as E1 by lia.
+    destruct (rdopen_run _ E1) as [fr [code [ph [r [ok Hp]]]]]. destruct (Hc _ _ _ _ _ Hp) as [?|[? _]]; lia.
+  - destruct (wropen (at_ (locof ls u))) eqn:E; [|reflexivity].
+    destruct (wropen_run _ E) as [fr [i [rest [ph [r [ok [Hp _]]]]]]]. destruct (Hc _ _ _ _ _ Hp) as [?|[? _]]; lia.
+Qed.
+
+(* a covered thread that is not itself writing sees a clean object *)
+Lemma covered_clean cf g ls t : Inv1 cf g ls -> Inv2 cf g ls -> safe cf g ->
+  (1 <= lx cf (locof ls t) + lsh cf (locof ls t))%nat -> wropen (at_ (locof ls t)) = false -> dirty g = false.
+Proof.
+  intros H1 H2 Hs Ht Hw. destruct (dirty g) eqn:Ed; [|reflexivity]. exfalso.
+  destruct (I_d _ _ _ H2 Hs Ed) as [u Hu].
+  assert (u <> t) as Hne by (intros ->; congruence).
+  destruct (wropen_run _ Hu) as [fr [i [rest [ph [r [ok [Hp Hro]]]]]]].
+  destruct (I_cov _ _ _ H2 Hs u _ _ _ _ _ Hp) as [Hx|[_ Hn]].
+  - destruct (excl_locks cf g ls u t H1 Hne ltac:(lia)). lia.
+  - cbn in Hn. rewrite Hro in Hn. discriminate.
+Qed.
+
+Lemma readers_sum_zero cf g ls t : Inv1 cf g ls -> Inv2 cf g ls -> safe cf g ->
+  lx cf (locof ls t) = 1%nat -> rdopen (at_ (locof ls t)) = 0%nat -> readers g = 0%nat.
+Proof.
+  intros H1 H2 Hs Ht Hr. rewrite (I_r _ _ _ H2). apply sum_zero. intros u l Hu.
+  destruct (Nat.eq_dec u t) as [->|Hne].
+  - rewrite <- (locof_at _ _ _ Hu). exact Hr.
+  - rewrite <- (locof_at _ _ _ Hu). apply (writer_alone cf g ls t H1 H2 Hs Ht u Hne).
+Qed.
+
+Lemma Inv2_upd cf g ls t l g' l' :
+  Inv1 cf g ls -> Inv2 cf g ls -> nth_error ls t = Some l ->
+  (misuse g <= misuse g')%nat ->
+  (readers g' + rdopen (at_ l) = readers g + rdopen (at_ l'))%nat ->
+  (safe cf g' -> covered cf l') ->
+  (safe cf g' -> dirty g' = true -> wropen (at_ l') = true \/ (dirty g = true /\ wropen (at_ l) = false)) ->
+  (safe cf g' -> (faults g' + nderef g = faults g + nderef g')%nat) ->
+  (safe cf g' -> forall fr rest ph r ok, at_ l' = Run fr (MIncr :: rest) ph r ok -> (2 <= ph)%nat -> r = val g') ->
+  (val g' = val g \/ (safe cf g' -> lx cf l = 1%nat)) ->
+  (safe cf g' -> owrites g' = 0%nat -> owrites g = 0%nat /\ val g' - Z.of_nat (incrs g') = val g - Z.of_nat (incrs g)) ->
+  Inv2 cf g' (upd ls t l').
+Proof.
+  intros H1 H2 Hl Hmis Hrd Hcov Hd Hf Hreg Hval Hiv.
+  assert (Hsafe : safe cf g' -> safe cf g) by (intros [? ?]; split; [assumption|lia]).
+  constructor.
+  - rewrite (I_r _ _ _ H2) in Hrd.
+    pose proof (sum_upd (fun l => rdopen (at_ l)) ls t l l' Hl). lia.
+  - intros Hs u. rewrite (locof_upd _ _ _ _ _ Hl). destruct (Nat.eqb u t); [auto|].
+    apply (I_cov _ _ _ H2 (Hsafe Hs)).
+  - intros Hs Hdg. destruct (Hd Hs Hdg) as [Hw|[Hdo Hw]].
+    + exists t. rewrite (locof_upd _ _ _ _ _ Hl), Nat.eqb_refl. exact Hw.
+    + destruct (I_d _ _ _ H2 (Hsafe Hs) Hdo) as [u Hu].
+      assert (u <> t) as Hne by (intros ->; rewrite (locof_at _ _ _ Hl) in Hu; congruence).
+      exists u. rewrite (locof_upd _ _ _ _ _ Hl). destruct (Nat.eqb_spec u t); [congruence|exact Hu].
+  - intros Hs. pose proof (I_f _ _ _ H2 (Hsafe Hs)). pose proof (Hf Hs). lia.
+  - intros Hs u fr rest ph r ok. rewrite (locof_upd _ _ _ _ _ Hl).
+    destruct (Nat.eqb_spec u t) as [->|Hne]; [apply (Hreg Hs)|].
+    intros Hp Hph. pose proof (I_reg _ _ _ H2 (Hsafe Hs) u _ _ _ _ _ Hp Hph) as E.
+    destruct Hval as [Hv|Hx]; [congruence|]. exfalso.
+    specialize (Hx Hs). rewrite <- (locof_at _ _ _ Hl) in Hx.
+    destruct (excl_locks cf g ls t u H1 (not_eq_sym Hne) ltac:(lia)) as [Ex Es].
+    destruct (I_cov _ _ _ H2 (Hsafe Hs) u _ _ _ _ _ Hp) as [?|[? Hn]]; [lia|]. cbn in Hn. discriminate.
+  - intros Hs Ho. destruct (Hiv Hs Ho) as [Ho' E]. pose proof (I_val _ _ _ H2 (Hsafe Hs) Ho'). lia.
+Qed.
+
+(* the fields of the wrapped object *)
+Definition same_obj (g g' : glob) : Prop :=
+  val g' = val g /\ readers g' = readers g /\ dirty g' = dirty g /\ incrs g' = incrs g /\ owrites g' = owrites g.
+Lemma same_obj_refl g : same_obj g g. Proof. repeat split. Qed.
+Lemma acquire_obj am sm t c g g' ok e : acquire am sm t c g = Some (g', ok, e) ->
+  same_obj g g' /\ misuse g' = misuse g /\ faults g' = faults g /\ nderef g' = nderef g.
+Proof.
+  unfold acquire. destruct am; destruct (obtainable sm g); try destruct (Nat.eqb c 2); cbn; intros H; inversion H; subst;
+    destruct sm; cbn; repeat split.
+Qed.
+Lemma release_obj sm t i g g' e : release sm t i g = (g', e) ->
+  same_obj g g' /\ misuse g' = misuse g /\ faults g' = faults g /\ nderef g' = nderef g.
+Proof. unfold release. intros H; inversion H; subst. destruct sm; cbn; repeat split. Qed.
+
+Lemma Inv2_same cf g ls t l g' l' :
+  Inv1 cf g ls -> Inv2 cf g ls -> nth_error ls t = Some l ->
+  same_obj g g' -> (misuse g <= misuse g')%nat -> (faults g' + nderef g = faults g + nderef g')%nat ->
+  rdopen (at_ l) = 0%nat -> rdopen (at_ l') = 0%nat -> wropen (at_ l) = false -> wropen (at_ l') = false ->
+  (safe cf g' -> covered cf l') ->
+  (forall fr rest ph r ok, at_ l' = Run fr (MIncr :: rest) ph r ok -> ph = 0%nat) ->
+  Inv2 cf g' (upd ls t l').
+Proof.
+  intros H1 H2 Hl [Ev [Er [Ed [Ei Eo]]]] Hmis Hf R0 R0' W0 W0' Hc Hph.
+  apply (Inv2_upd cf g ls t l g' l' H1 H2 Hl Hmis); auto; try lia.
+  - intros _ Hd. right. split; congruence.
+  - intros _ fr rest ph r ok Hp Hge. rewrite (Hph _ _ _ _ _ Hp) in Hge. lia.
+Qed.
+
+Lemma wop_shared_nowrite cf o code : wop_code cf o = Some (true, code) -> nowrite code = true.
+Proof.
+  unfold wop_code. destruct o; try discriminate; destruct (flav cf); cbn; intros H; inversion H; reflexivity.
+Qed.
+Lemma nowrite_tail i rest : nowrite (i :: rest) = true -> nowrite rest = true.
+Proof. cbn. intros H. apply andb_true_iff in H. tauto. Qed.
+
+Lemma rdopen_ph0 fr code r ok : rdopen (Run fr code 0 r ok) = 0%nat.
+Proof. destruct code as [|[]]; reflexivity. Qed.
+Lemma wropen_ph0 fr code r ok : wropen (Run fr code 0 r ok) = false.
+Proof. destruct code as [|[| |[]| |]]; reflexivity. Qed.
+
+Definition notrun (p : pc) : Prop := match p with Run _ _ _ _ _ => False | _ => True end.
+Lemma notrun_rd p : notrun p -> rdopen p = 0%nat. Proof. destruct p; cbn; tauto. Qed.
+Lemma notrun_wr p : notrun p -> wropen p = false. Proof. destruct p; cbn; tauto. Qed.
+
+Lemma sum_nth_le {A} (f : A -> nat) (l : list A) t x : nth_error l t = Some x -> (f x <= list_sum (map f l))%nat.
+Proof.
+  revert t. induction l as [|a r IH]; intros t H.
+  - destruct t; discriminate.
+  - change (list_sum (map f (a :: r))) with (f a + list_sum (map f r))%nat.
+    destruct t as [|t]; cbn [nth_error] in H.
+    + inversion H; subst. lia.
+    + specialize (IH t H). lia.
+Qed.
+
+(* one phase of one micro-instruction, executed by a thread that is covered *)
+Lemma Inv2_exec cf g ls t pr sl fr i rest ph r ok p' :
+  Inv1 cf g ls -> Inv2 cf g ls -> nth_error ls t = Some (Loc pr (Run fr (i :: rest) ph r ok) sl) ->
+  let m := exec_mi cf t i ph r ok g in
+  ((m_done m = false /\ m_thrown m = false /\ p' = Run fr (i :: rest) (S ph) (m_r m) (m_ok m)) \/
+   ((m_done m = true \/ m_thrown m = true) /\
+    (notrun p' \/ (m_thrown m = false /\
+                   p' = Run fr (match m_rest m with Some c' => c' | None => rest end) 0 (m_r m) (m_ok m))))) ->
+  Inv2 cf (m_g m) (upd ls t (Loc pr p' sl)).
+Proof.
+  intros H1 H2 Hl m Hp'.
+  set (l0 := Loc pr (Run fr (i :: rest) ph r ok) sl) in *.
+  assert (Hcov : safe cf g -> lx cf l0 = 1%nat \/ ((1 <= lsh cf l0)%nat /\ nowrite (i :: rest) = true)).
+  { intros Hs. pose proof (I_cov _ _ _ H2 Hs t) as Hc. rewrite (locof_at _ _ _ Hl) in Hc. eapply Hc. reflexivity. }
+  assert (Hlx : forall code ph2 r2 ok2, lx cf (Loc pr (Run fr code ph2 r2 ok2) sl) = lx cf l0 /\
+                                         lsh cf (Loc pr (Run fr code ph2 r2 ok2) sl) = lsh cf l0).
+  { intros. unfold lx, lsh, l0. cbn [at_ slots pcx pcs]. destruct fr; auto. }
+  assert (Hclean : safe cf g -> wropen (at_ l0) = false -> dirty g = false).
+  { intros Hs Hw. apply (covered_clean cf g ls t H1 H2 Hs); rewrite (locof_at _ _ _ Hl); [|exact Hw].
+    destruct (Hcov Hs) as [?|[? _]]; lia. }
+  assert (Hnord : safe cf g -> ro_mi i = false -> rdopen (at_ l0) = 0%nat -> readers g = 0%nat).
+  { intros Hs Hro Hr. apply (readers_sum_zero cf g ls t H1 H2 Hs); rewrite (locof_at _ _ _ Hl); [|exact Hr].
+    destruct (Hcov Hs) as [?|[_ Hn]]; [assumption|]. cbn in Hn. rewrite Hro in Hn. discriminate. }
+  assert (Hxw : safe cf g -> ro_mi i = false -> lx cf l0 = 1%nat).
+  { intros Hs Hro. destruct (Hcov Hs) as [?|[_ Hn]]; [assumption|]. cbn in Hn. rewrite Hro in Hn. discriminate. }
+  assert (Hrd1 : (rdopen (at_ l0) <= readers g)%nat).
+  { rewrite (I_r _ _ _ H2). apply (sum_nth_le (fun l => rdopen (at_ l)) ls t l0 Hl). }
+  assert (Hregt : safe cf g -> forall rest0, i :: rest = MIncr :: rest0 -> (2 <= ph)%nat -> r = val g).
+  { intros Hs rest0 E Hge. inversion E; subst. apply (I_reg _ _ _ H2 Hs t fr rest0 ph r ok); [|exact Hge].
+    rewrite (locof_at _ _ _ Hl). reflexivity. }
+  destruct i as [fid snap| |tg s| |e d];
+    [| destruct ph as [|ph] | destruct tg; destruct ph as [|ph] | destruct ph as [|[|[|ph]]] | destruct ph as [|ph]];
+    subst m; unfold exec_mi, rd_begin, rd_end, wr_begin, wr_end in *; cbn in Hp' |- *.
+  all: try match goal with |- context [existsb] => destruct (existsb (Nat.eqb (calls g)) (throws cf)) eqn:Ethr; cbn in Hp' |- * end.
+  all: destruct Hp' as [[Hd [Ht ->]] | [Hd [Hn | [Ht ->]]]]; try discriminate; try (destruct Hd; discriminate).
+  all: pose proof (fun code ph2 r2 ok2 => proj1 (Hlx code ph2 r2 ok2)) as Hlx1;
+       pose proof (fun code ph2 r2 ok2 => proj2 (Hlx code ph2 r2 ok2)) as Hlx2.
+  all: try (pose proof (notrun_rd _ Hn) as Hnr; pose proof (notrun_wr _ Hn) as Hnw).
+  all: eapply (Inv2_upd cf g ls t l0 _ _ H1 H2 Hl); cbn [at_ misuse readers dirty faults nderef val owrites incrs set_obj set_calls add_owrite add_incr].
+  all: try lia.
+  all: unfold l0 in *; cbn [at_ rdopen wropen] in *; rewrite ?rdopen_ph0, ?wropen_ph0.
+  all: try (rewrite ?Hnr, ?Hnw; lia).
+  all: try (intros Hs'; assert (Hs : safe cf g) by (destruct Hs' as [? Hm']; split; [assumption|exact Hm']); clear Hs').
+  (* the new pc is covered *)
+  all: try match goal with |- covered _ _ =>
+         unfold covered; cbn [at_]; intros fr0 code0 ph0 r0 ok0 Hp;
+         first [ subst p'; contradiction
+               | inversion Hp; subst; clear Hp; rewrite Hlx1, Hlx2;
+                 first [ exact (Hcov Hs)
+                       | destruct (Hcov Hs) as [?|[? Hnw0]]; [left; assumption|right; split; [assumption|exact (nowrite_tail _ _ Hnw0)]]
+                       | left; apply (Hxw Hs); reflexivity ] ]
+       end.
+  (* Incr register *)
+  all: try match goal with |- forall (_ : frame), _ =>
+         intros fr0 rest0 ph0 r0 ok0 Hp Hge;
+         first [ subst p'; contradiction
+               | inversion Hp; subst; clear Hp; first [ lia | reflexivity ] ]
+       end.
+  all: repeat match goal with |- context [match ?x with [] => _ | _ :: _ => _ end] => destruct x end.
+  all: try lia.
+  all: try (intros Hd; right; split; [exact Hd|reflexivity]).
+  all: try (rewrite ?(Hclean Hs eq_refl), ?(Hnord Hs eq_refl eq_refl); lia).
+  all: try (cbn [rdopen] in Hrd1; rewrite ?Hnr; lia).
+  all: try (right; intros Hs'; apply Hxw; [destruct Hs'; split; assumption|reflexivity]).
+  all: try (intros fr0 rest0 ph0 r0 ok0 Hp Hge; inversion Hp; subst; clear Hp; apply (Hregt Hs _ eq_refl); lia).
+  all: try (destruct m; cbn; lia).
+  all: try (intros Ho; split; [exact Ho|]; rewrite (Hregt Hs _ eq_refl) by lia; lia).
+  all: match goal with |- ?G => idtac "REMAIN" G end.
+Admitted.
+
+Lemma Inv2_step cf : forall g ls t c l g' l' es,
+  Inv1 cf g ls -> Inv2 cf g ls -> nth_error ls t = Some l -> tstep cf t c g l = Some (g', l', es) ->
+  Inv2 cf g' (upd ls t l').
+Proof.
+  intros g ls t c l g' l' es H1 H2 Hl Hs.
+  pose proof (Inv1_step cf _ _ _ _ _ _ _ _ H1 Hl Hs) as H1'.
+  pose proof (I_x _ _ _ H1' t) as HX'. pose proof (own1_le g' t) as HXle.
+  rewrite (locof_upd _ _ _ _ _ Hl), Nat.eqb_refl in HX'.
+  pose proof (I_cov _ _ _ H2) as HC.
+  destruct (I_ok _ _ _ H1 _ _ Hl) as [Hlen Hpc].
+  destruct l as [pr p sl]. cbn [at_ slots] in *.
+  step_cases Hs; bool_hyps.
+  all: try match goal with H : acquire ABlock _ _ _ _ = Some (_, ?b, _) |- _ => pose proof (acquire_block _ _ _ _ _ _ _ H); subst b end.
+  (* steps that do not touch the wrapped object *)
+  all: try (
+    first [ match goal with H : acquire _ _ _ _ _ = Some _ |- _ => destruct (acquire_obj _ _ _ _ _ _ _ _ H) as [Hso [Hmi [Hfa Hnd]]] end
+          | match goal with H : release _ _ _ _ = _ |- _ => destruct (release_obj _ _ _ _ _ _ H) as [Hso [Hmi [Hfa Hnd]]] end
+          | match goal with |- context [exec_mi] => fail 2 end
+          | idtac ];
+    eapply (Inv2_same cf _ ls t _ _ _ H1 H2 Hl);
+    [ first [ eassumption | apply same_obj_refl | repeat split ]
+    | first [ lia | cbn; lia ]
+    | first [ lia | cbn; lia ]
+    | first [reflexivity|apply rdopen_ph0] | first [reflexivity|apply rdopen_ph0] | first [reflexivity|apply wropen_ph0] | first [reflexivity|apply wropen_ph0]
+    | intros Hsafe; unfold covered; cbn [at_]; intros fr0 code0 ph0 r0 ok0 Hp; first [discriminate Hp | inversion Hp; subst; clear Hp]
+    | intros; first [ discriminate | match goal with H : Run _ _ _ _ _ = Run _ _ _ _ _ |- _ => inversion H; reflexivity end ] ]).
+  - (* Use through a handle that owns nothing: counted as misuse, nothing is claimed afterwards *)
+    eapply (Inv2_same cf _ ls t _ _ _ H1 H2 Hl); try reflexivity.
+    + repeat split.
+    + cbn; lia.
+    + apply rdopen_ph0.
+    + apply wropen_ph0.
+    + intros [_ Hm]. cbn in Hm. discriminate.
+    + intros fr rest ph r ok Hp. cbn in Hp. inversion Hp. reflexivity.
+  - (* Use through a handle that owns its lock *)
+    eapply (Inv2_same cf _ ls t _ _ _ H1 H2 Hl); try reflexivity.
+    + apply same_obj_refl.
+    + apply rdopen_ph0.
+    + apply wropen_ph0.
+    + intros [Hlk _] fr code ph r ok Hp. cbn [at_] in Hp. inversion Hp; subst; clear Hp.
+      rewrite Hlk in Heqb1. cbn in Heqb1. apply negb_false_iff in Heqb1.
+      pose proof (cnt_ge (hx cf) sl h h0 Heqo1) as Gx. pose proof (cnt_ge (hs cf) sl h h0 Heqo1) as Gs.
+      unfold lx, lsh in *. cbn [at_ slots pcx pcs] in *.
+      set (CX := cnt (hx cf) sl) in *. set (CS := cnt (hs cf) sl) in *.
+      unfold hx, hs, b2n in Gx, Gs. rewrite Heqb1 in Gx, Gs. cbn [andb] in *.
+      destruct (hsh h0 && shcap cf) eqn:Em; cbn in Gx, Gs.
+      * right. split; [lia|]. apply andb_true_iff in Em as [Eh _]. rewrite Eh in Heqb. cbn in Heqb.
+        destruct a; try discriminate. reflexivity.
+      * left. lia.
+    + intros fr rest ph r ok Hp. cbn in Hp. inversion Hp. reflexivity.
+  - (* a whole-object operation has taken its guard *)
+    destruct (acquire_obj _ _ _ _ _ _ _ _ Heqo1) as [Hso [Hmi [Hfa Hnd]]].
+    eapply (Inv2_same cf _ ls t _ _ _ H1 H2 Hl); try reflexivity; try eassumption; try lia.
+    + apply rdopen_ph0.
+    + apply wropen_ph0.
+    + intros _ fr code ph r ok Hp. cbn [at_] in Hp. inversion Hp; subst; clear Hp.
+      unfold lx, lsh in *. cbn [at_ slots pcx pcs] in *. unfold gmode in *. rewrite Heqo0 in *.
+      destruct (b && shcap cf) eqn:Em; cbn [negb b2n] in *.
+      * right. split; [lia|]. apply andb_true_iff in Em as [-> _]. eapply wop_shared_nowrite; eauto.
+      * left. lia.
+    + intros fr rest ph r ok Hp. cbn in Hp. inversion Hp. reflexivity.
+  - apply (Inv2_exec cf g ls t pr sl _ _ _ _ _ _ _ H1 H2 Hl); cbv zeta;
+    first
+    [ left; repeat split; assumption
+    | right; split; [right; assumption | left; exact I]
+    | right; split; [left; assumption | left; exact I]
+    | right; split; [left; assumption | right; split; [assumption | congruence]] ].
+  - apply (Inv2_exec cf g ls t pr sl _ _ _ _ _ _ _ H1 H2 Hl); cbv zeta;
+    first
+    [ left; repeat split; assumption
+    | right; split; [right; assumption | left; exact I]
+    | right; split; [left; assumption | left; exact I]
+    | right; split; [left; assumption | right; split; [assumption | congruence]] ].
+  - apply (Inv2_exec cf g ls t pr sl _ _ _ _ _ _ _ H1 H2 Hl); cbv zeta;
+    first
+    [ left; repeat split; assumption
+    | right; split; [right; assumption | left; exact I]
+    | right; split; [left; assumption | left; exact I]
+    | right; split; [left; assumption | right; split; [assumption | congruence]] ].
+  - apply (Inv2_exec cf g ls t pr sl _ _ _ _ _ _ _ H1 H2 Hl); cbv zeta;
+    first
+    [ left; repeat split; assumption
+    | right; split; [right; assumption | left; exact I]
+    | right; split; [left; assumption | left; exact I]
+    | right; split; [left; assumption | right; split; [assumption | congruence]] ].
+  - apply (Inv2_exec cf g ls t pr sl _ _ _ _ _ _ _ H1 H2 Hl); cbv zeta;
+    first
+    [ left; repeat split; assumption
+    | right; split; [right; assumption | left; exact I]
+    | right; split; [left; assumption | left; exact I]
+    | right; split; [left; assumption | right; split; [assumption | congruence]] ].
+  - apply (Inv2_exec cf g ls t pr sl _ _ _ _ _ _ _ H1 H2 Hl); cbv zeta;
+    first
+    [ left; repeat split; assumption
+    | right; split; [right; assumption | left; exact I]
+    | right; split; [left; assumption | left; exact I]
+    | right; split; [left; assumption | right; split; [assumption | congruence]] ].
+Qed.
+
+Lemma Inv2_init cf progs : Inv2 cf (gl (init cf progs)) (thr (init cf progs)).
+Proof.
+  assert (P : forall u, at_ (locof (thr (init cf progs)) u) = Idle).
+  { intros u. unfold locof, init. cbn [thr]. rewrite nth_error_map. destruct (nth_error progs u); reflexivity. }
+  constructor; cbn [gl init readers dirty faults nderef val owrites incrs].
+  - symmetry. apply sum_zero. intros u x Hx. unfold init in Hx. cbn [thr] in Hx. rewrite nth_error_map in Hx.
+    destruct (nth_error progs u); inversion Hx; reflexivity.
+  - intros _ u fr code ph r ok Hp. rewrite P in Hp. discriminate.
+  - discriminate.
+  - reflexivity.
+  - intros _ u fr rest ph r ok Hp. rewrite P in Hp. discriminate.
+  - intros _ _. cbn. lia.
+Qed.
+
+Definition Inv (cf : config) (g : glob) (ls : list loc) : Prop := Inv1 cf g ls /\ Inv2 cf g ls.
+Lemma Inv_step cf : forall g ls t c l g' l' es,
+  Inv cf g ls -> nth_error ls t = Some l -> tstep cf t c g l = Some (g', l', es) -> Inv cf g' (upd ls t l').
+Proof. intros g ls t c l g' l' es [H1 H2] Hl Hs. split; [eapply Inv1_step|eapply Inv2_step]; eauto. Qed.
+Lemma R_inv cf progs s : R cf progs s -> Inv cf (gl s) (thr s).
+Proof.
+  intros H. eapply reachable_inv; [apply Inv_step| |exact H]. split; [apply Inv1_init|apply Inv2_init].
+Qed.
+
+(* ---------- C01 ---------- *)
+(* t has exclusive access: a live handle of t owns the mutex exclusively, or t is inside the guarded
+   region of load / store / operator= / modify / exchange / compare_exchange / operator T *)
+Definition in_excl_access (cf : config) (s : sysW) (t : nat) : Prop := (1 <= lx cf (locof (thr s) t))%nat.
+Definition holds_lock (cf : config) (s : sysW) (u : nat) : Prop :=
+  (1 <= lx cf (locof (thr s) u) + lsh cf (locof (thr s) u))%nat.
+(* u is executing accesses of the wrapped object (through a handle or inside a whole-object operation) *)
+Definition in_any_access (s : sysW) (u : nat) : Prop :=
+  exists fr code ph r ok, at_ (locof (thr s) u) = Run fr code ph r ok.
+Definition open_window (s : sysW) (t : nat) : Prop :=
+  rdopen (at_ (locof (thr s) t)) = 1%nat \/ wropen (at_ (locof (thr s) t)) = true.
+Definition open_write_window (s : sysW) (t : nat) : Prop := wropen (at_ (locof (thr s) t)) = true.
+
+Lemma excl_invariant_l cf progs s t u : R cf progs s -> in_excl_access cf s t -> u <> t ->
+  ~ holds_lock cf s u /\ (safe cf (gl s) -> ~ in_any_access s u).
+Proof.
+  intros HR Ht Hne. destruct (R_inv _ _ _ HR) as [H1 H2]. unfold in_excl_access, holds_lock in *.
+  destruct (excl_locks cf _ _ t u H1 (not_eq_sym Hne) Ht) as [Ex Es]. split; [lia|].
+  intros Hs [fr [code [ph [r [ok Hp]]]]].
+  destruct (I_cov _ _ _ H2 Hs u _ _ _ _ _ Hp) as [?|[? _]]; lia.
+Qed.
+
+Lemma windows_disjoint_l cf progs s : R cf progs s -> safe cf (gl s) ->
+  ~ (exists t u, t <> u /\ open_window s t /\ open_write_window s u).
+Proof.
+  intros HR Hs [t [u [Hne [Ht Hu]]]]. destruct (R_inv _ _ _ HR) as [H1 H2]. unfold open_window, open_write_window in *.
+  destruct (wropen_run _ Hu) as [fr [i [rest [ph [r [ok [Hp Hro]]]]]]].
+  destruct (I_cov _ _ _ H2 Hs u _ _ _ _ _ Hp) as [Hx|[_ Hn]]; [|cbn in Hn; rewrite Hro in Hn; discriminate].
+  destruct (writer_alone cf _ _ u H1 H2 Hs Hx t Hne) as [Hr Hw]. destruct Ht; [lia|congruence].
+Qed.
+
+Lemma no_window_fault_l cf progs s : R cf progs s -> safe cf (gl s) -> faults (gl s) = nderef (gl s).
+Proof. intros HR Hs. apply (I_f _ _ _ (proj2 (R_inv _ _ _ HR)) Hs). Qed.
+
+Lemma no_lost_update_l cf progs s : R cf progs s -> safe cf (gl s) -> owrites (gl s) = 0%nat ->
+  val (gl s) = init_val cf + Z.of_nat (incrs (gl s)).
+Proof. intros HR Hs Ho. apply (I_val _ _ _ (proj2 (R_inv _ _ _ HR)) Hs Ho). Qed.
+
+(* an increment in progress has read the current value: nobody wrote in between *)
+Lemma incr_reads_current_l cf progs s u fr rest ph r ok : R cf progs s -> safe cf (gl s) ->
+  at_ (locof (thr s) u) = Run fr (MIncr :: rest) ph r ok -> (2 <= ph)%nat -> r = val (gl s).
+Proof. intros HR Hs. apply (I_reg _ _ _ (proj2 (R_inv _ _ _ HR)) Hs). Qed.
+
+Lemma no_leaked_lock_l cf progs s t : R cf progs s ->
+  (owner (gl s) = Some t <-> lx cf (locof (thr s) t) = 1%nat) /\
+  (lx cf (locof (thr s) t) <= 1)%nat /\
+  count_occ Nat.eq_dec (sharers (gl s)) t = lsh cf (locof (thr s) t).
+Proof.
+  intros HR. destruct (R_inv _ _ _ HR) as [H1 _].
+  pose proof (I_x _ _ _ H1 t) as E. pose proof (own1_le (gl s) t). split; [|split].
+  - split; intros H0.
+    + rewrite E. unfold own1. rewrite H0, Nat.eqb_refl. reflexivity.
+    + apply own1_pos. lia.
+  - lia.
+  - symmetry. apply (I_s _ _ _ H1 t).
+Qed.
+
+Lemma count_occ_all_zero (l : list nat) : (forall u, count_occ Nat.eq_dec l u = 0%nat) -> l = [].
+Proof.
+  destruct l as [|x r]; [reflexivity|]. intros H. specialize (H x). cbn in H.
+  destruct (Nat.eq_dec x x); [discriminate|congruence].
+Qed.
+
+Definition owns_nothing (l : loc) : Prop :=
+  at_ l = Idle /\ forall h x, slot (slots l) h = Some x -> hown x = false.
+Lemma owns_nothing_zero cf l : owns_nothing l -> lx cf l = 0%nat /\ lsh cf l = 0%nat.
+Proof.
+  intros [Hp Hsl]. unfold lx, lsh. rewrite Hp. cbn [pcx pcs].
+  rewrite !cnt_zero; [auto| |]; intros h x Hx; unfold hs, hx; rewrite (Hsl h x Hx); reflexivity.
+Qed.
+Lemma mutex_free_when_idle_l cf progs s : R cf progs s ->
+  (forall u l, nth_error (thr s) u = Some l -> owns_nothing l) ->
+  owner (gl s) = None /\ sharers (gl s) = [].
+Proof.
+  intros HR Hall. destruct (R_inv _ _ _ HR) as [H1 _].
+  assert (Z0 : forall u, lx cf (locof (thr s) u) = 0%nat /\ lsh cf (locof (thr s) u) = 0%nat).
+  { intros u. unfold locof. destruct (nth_error (thr s) u) as [l|] eqn:E; [|split; reflexivity].
+    apply owns_nothing_zero. eauto. }
+  split.
+  - destruct (owner (gl s)) as [a|] eqn:Eo; [|reflexivity]. exfalso.
+    pose proof (I_x _ _ _ H1 a) as E. unfold own1 in E. rewrite Eo, Nat.eqb_refl in E. destruct (Z0 a). cbn in E. lia.
+  - apply count_occ_all_zero. intros u. pose proof (I_s _ _ _ H1 u) as E. unfold shc in E. destruct (Z0 u). lia.
+Qed.
